@@ -42,8 +42,14 @@ Record tmpl := {
   t_union_clear_others : bool; (* union setter sets every OTHER option to None ... *)
   t_union_clear_after : bool;  (* ... after the value has been validated and stored *)
   t_union_ctor_count : bool;   (* union constructor: counts the given options, > 1 raises ValueError *)
-  t_arr_precheck : bool        (* assign_array, conversion path, integer element types: the source is range-checked against the
+  t_arr_precheck : bool;       (* assign_array, conversion path, integer element types: the source is range-checked against the
                                   field's inclusive_value_range BEFORE np.array(src, dtype) casts it (shape of the F-PY-ARRWRAP fix) *)
+  t_precheck_nd_only : bool;   (* the floating-point arm of that range check is applied to ndarray sources only: for a list, np.asarray
+                                  would INFER float64 (also for Python ints on both sides of 2^63) and lose the exact values, while
+                                  np.array(list, dtype) checks every Python int / float itself (F-PY-PRECHECK-INFER fix) *)
+  t_text_guard : bool          (* text is a sequence of bytes, never a number (shape of the F-PY-NUMTEXT fix): the bytes branch is taken by
+                                  type alone and RAISES on an illegal length instead of falling through, and the conversion path raises
+                                  ValueError for bytes / bytearray / str before np.array(text, dtype) could parse it as ONE number *)
 }.
 
 Definition set_precheck (b : bool) (T : tmpl) : tmpl :=
@@ -51,7 +57,16 @@ Definition set_precheck (b : bool) (T : tmpl) : tmpl :=
      t_float_check_below := t_float_check_below T; t_cmp_fixed := t_cmp_fixed T; t_cmp_var := t_cmp_var T;
      t_len_bytes := t_len_bytes T; t_len_nd := t_len_nd T; t_len_slow := t_len_slow T; t_bytes_max_w := t_bytes_max_w T;
      t_comp_isinstance := t_comp_isinstance T; t_union_clear_others := t_union_clear_others T;
-     t_union_clear_after := t_union_clear_after T; t_union_ctor_count := t_union_ctor_count T; t_arr_precheck := b |}.
+     t_union_clear_after := t_union_clear_after T; t_union_ctor_count := t_union_ctor_count T; t_arr_precheck := b;
+     t_precheck_nd_only := t_precheck_nd_only T; t_text_guard := t_text_guard T |}.
+
+Definition set_text_guard (b : bool) (T : tmpl) : tmpl :=
+  {| t_int_check := t_int_check T; t_float_check := t_float_check T; t_float_nonfinite_ok := t_float_nonfinite_ok T;
+     t_float_check_below := t_float_check_below T; t_cmp_fixed := t_cmp_fixed T; t_cmp_var := t_cmp_var T;
+     t_len_bytes := t_len_bytes T; t_len_nd := t_len_nd T; t_len_slow := t_len_slow T; t_bytes_max_w := t_bytes_max_w T;
+     t_comp_isinstance := t_comp_isinstance T; t_union_clear_others := t_union_clear_others T;
+     t_union_clear_after := t_union_clear_after T; t_union_ctor_count := t_union_ctor_count T; t_arr_precheck := t_arr_precheck T;
+     t_precheck_nd_only := t_precheck_nd_only T; t_text_guard := b |}.
 
 (* ---------------------------------------------------------------- values *)
 Inductive pyval :=
@@ -192,22 +207,119 @@ Definition py_bool (v : pyval) : bool :=
   | PObj _ _ => true
   end.
 
+(* ---------------------------------------------------------------- CPython int() / float() of ASCII text
+   int(): optional white space, optional sign, decimal digits with single underscores BETWEEN digits, optional white space.
+   float(): the same frame around  digits [. digits] [e [sign] digits] | . digits ... | inf | infinity | nan  (case-insensitive),
+   correctly rounded (round half to even) to binary64.  Non-ASCII digits / white space are outside the model. *)
+Open Scope N_scope.
+Definition is_ws (c : N) : bool := (c =? 32) || ((9 <=? c) && (c <=? 13)).
+Definition is_digit (c : N) : bool := (48 <=? c) && (c <=? 57).
+Fixpoint drop_ws (s : list N) : list N := match s with c :: r => if is_ws c then drop_ws r else s | [] => [] end.
+Definition strip_ws (s : list N) : list N := rev (drop_ws (rev (drop_ws s))).
+Definition lower (c : N) : N := if (65 <=? c) && (c <=? 90) then c + 32 else c.
+
+(* digits with single underscores between them: (value, number of digits, rest); at least one digit or None *)
+Fixpoint digits_acc (s : list N) (acc : N) (n : nat) (prev_digit : bool) : option (N * nat * list N) :=
+  match s with
+  | c :: r =>
+      if is_digit c then digits_acc r (acc * 10 + (c - 48)) (S n) true
+      else if (c =? 95) && prev_digit then
+        match r with
+        | d :: _ => if is_digit d then digits_acc r acc n false else None         (* "1_" / "1__0" are errors *)
+        | [] => None
+        end
+      else if prev_digit then Some (acc, n, s) else None
+  | [] => if prev_digit then Some (acc, n, []) else None
+  end.
+Definition digits (s : list N) : option (N * nat * list N) := digits_acc s 0 O false.
+
+Definition split_sign (s : list N) : bool * list N :=
+  match s with
+  | 45 :: r => (true, r)
+  | 43 :: r => (false, r)
+  | _ => (false, s)
+  end.
+
+Definition parse_int_text (s : list N) : option Z :=
+  let '(neg, r) := split_sign (strip_ws s) in
+  match digits r with
+  | Some (v, _, []) => Some (if neg then (- Z.of_N v)%Z else Z.of_N v)
+  | _ => None
+  end.
+Close Scope N_scope.
 (* int(x); strings and bytes are taken to be non-numeric text (domain of the model) *)
 Definition py_int (v : pyval) : res Z :=
   match v with
   | PInt z => Ok z
   | PBool b => Ok (if b then 1 else 0)
   | PFloat x => if f_isnan x then Raise ValueError else if f_isfinite x then Ok (f_trunc x) else Raise OverflowError
-  | PStr _ | PBytes _ => Raise ValueError
+  | PStr s | PBytes s => match parse_int_text s with Some z => Ok z | None => Raise ValueError end
   | _ => Raise TypeError
   end.
+
+(* (-1)^neg * m * 10^e10 correctly rounded to binary64 (None: overflow to infinity is reported by the caller as it needs) *)
+Definition f_of_decimal (neg : bool) (m : N) (e10 : Z) : N :=
+  if (m =? 0)%N then f_signbit neg
+  else if (0 <=? e10) then
+    match f_of_Z ((if neg then -1 else 1) * Z.of_N m * 10 ^ e10) with Some x => x | None => f_inf neg end
+  else
+    let den := Z.to_N (10 ^ (- e10)) in
+    let sh := (64 + N.log2 den + 1 - N.log2 m)%N in                  (* quotient with at least 64 significant bits *)
+    let '(qt, r) := N.div_eucl (N.shiftl m sh) den in
+    let q2 := (2 * qt + (if (r =? 0)%N then 0 else 1))%N in           (* sticky bit appended *)
+    let p := N.log2 q2 in
+    let Mr := rne_shift q2 (p - 52) in
+    f_encode neg Mr (Z.of_N (p - 52) - Z.of_N sh - 1).
+
+Open Scope N_scope.
+Definition text_is (w : list N) (s : list N) : bool :=
+  if list_eq_dec N.eq_dec (map lower s) w then true else false.
+
+Definition parse_float_text (s : list N) : option N :=
+  let '(neg, r) := split_sign (strip_ws s) in
+  if text_is [105; 110; 102] r || text_is [105; 110; 102; 105; 110; 105; 116; 121] r then Some (f_inf neg)
+  else if text_is [110; 97; 110] r then Some f_nan
+  else
+    (* mantissa: digits [ . [digits] ]  |  . digits *)
+    let mant : option (N * nat * list N) :=
+      match r with
+      | 46 :: r1 => match digits r1 with Some (v, n, r2) => Some (v, n, r2) | None => None end
+      | _ =>
+          match digits r with
+          | Some (v, _, 46 :: r1) =>
+              match r1 with
+              | d :: _ => if is_digit d
+                          then match digits r1 with Some (v2, n2, r2) => Some (v * 10 ^ N.of_nat n2 + v2, n2, r2) | None => None end
+                          else Some (v, O, r1)
+              | [] => Some (v, O, [])
+              end
+          | Some (v, _, r1) => Some (v, O, r1)
+          | None => None
+          end
+      end in
+    match mant with
+    | None => None
+    | Some (m, frac, rest) =>
+        match rest with
+        | [] => Some (f_of_decimal neg m (- Z.of_nat frac))
+        | c :: r1 =>
+            if lower c =? 101 then
+              let '(eneg, r2) := split_sign r1 in
+              match digits r2 with
+              | Some (ev, _, []) => Some (f_of_decimal neg m ((if eneg then - Z.of_N ev else Z.of_N ev) - Z.of_nat frac)%Z)
+              | _ => None
+              end
+            else None
+        end
+    end.
+Close Scope N_scope.
 
 Definition py_float (v : pyval) : res N :=
   match v with
   | PFloat x => Ok x
   | PInt z => match f_of_Z z with Some x => Ok x | None => Raise OverflowError end
   | PBool b => Ok (if b then f_one else 0%N)
-  | PStr _ | PBytes _ => Raise ValueError
+  | PStr s | PBytes s => match parse_float_text s with Some x => Ok x | None => Raise ValueError end
   | _ => Raise TypeError
   end.
 
@@ -348,8 +460,19 @@ Definition int_leaf_ok (e : etype) (x : pyval) : bool :=
       end
   | _ => true
   end.
+Definition is_pyfloat (x : pyval) : bool := match x with PFloat _ => true | _ => false end.
 Definition int_src_ok (e : etype) (y : pyval) : bool :=
-  negb (t_arr_precheck T) || match np_flat y with Ok sl => forallb (int_leaf_ok e) (snd sl) | Raise _ => true end.
+  negb (t_arr_precheck T) ||
+  match y with
+  | PArr _ l => forallb (int_leaf_ok e) l
+  | _ =>
+      match np_flat y with
+      | Ok sl =>
+          (* a list with a Python float in it is inferred as float64: with t_precheck_nd_only the check leaves it to the cast *)
+          (t_precheck_nd_only T && existsb is_pyfloat (snd sl)) || forallb (int_leaf_ok e) (snd sl)
+      | Raise _ => true
+      end
+  end.
 
 Definition cmp_len (c : cmpop) (n cap : nat) : bool :=
   match c with
@@ -382,7 +505,9 @@ Definition assign_array_with (conv : dtype -> pyval -> res (list pyval))
   | PBytes s =>
       if fast_bytes && (negb (t_len_bytes T) || cmp_len cmp (length s) cap)
       then chk (map (fun c => PInt (Z.of_N (c mod 256))) s)                (* np.frombuffer(src, uint8); a byte is < 256 *)
-      else slow x1
+      else if t_text_guard T then Raise ValueError                         (* illegal length / not an array of bytes: never parsed *)
+      else slow x1                                                         (* np.array(b'123', dtype) parses ONE number *)
+  | PStr _ => if t_text_guard T then Raise ValueError else slow x1
   | PArr dt' l =>
       if dtype_eqb dt' dt && (negb (t_len_nd T) || cmp_len cmp (length l) cap)
       then chk l                                                           (* fast binding *)
